@@ -62,7 +62,7 @@ P = {
          "Every cell of complete coarse resolutions, the families and two rings around all icosahedron edges: reported faces between must and may sets derived from nearest face centre of sample points.",
          "Face-centre table cross-checked against geometry at start-up.", "4-C19"),
  "C20": ("model_checking", "bounded exhaustive value/buffer/string enumeration vs formatting reference",
-         "All values with <=3 bits set, all 16-bit patterns at 4 offsets, boundary values, real indexes x buffer sizes 0..32 with guard bytes; all byte strings of length <=3 over a 16-byte alphabet for parsing; arbitrary caller errno and failing parses before every parse.",
+         "All values with <=3 bits set, all 16-bit patterns at 4 offsets, boundary values, real indexes x buffer sizes 0..32 with guard bytes; all byte strings of length <=5 (thorough <=7) over a 16-byte alphabet for parsing; arbitrary caller errno and failing parses before every parse.",
          "Values outside the structured sets not enumerated.", "4-C20"),
 }
 checks, na = [], []
